@@ -301,9 +301,10 @@ Definition as_new_flow (f : inner) (policy : auth_policy) : res (inner * option 
       | None => Panic "flow.rs: status.unwrap() in as_new_flow"
       | Some status =>
           let m := am_method prev in
-          (* new_uri_from_location: the base must parse as a URL *)
+          (* new_uri_from_location: a base that does not parse as a URL (no scheme: origin-form request URI, or the
+             placeholder left behind by take_request) is reported as an error *)
           match u_scheme (am_eff_uri prev) with
-          | [] => Panic "amended.rs: expect(base uri to be a url)"
+          | [] => Err BadLocationHeader
           | _ =>
               match resolve (am_eff_uri prev) loc with
               | None => Err BadLocationHeader
